@@ -257,13 +257,14 @@ class Spec(core.PropSpec):
     def gen_plan(self, seed, tier):
         st = core.Streams(seed)
         rw = st("world")
-        R = rw.choice([1, 1, 2, 2, 3, 4])
-        n = rw.randint(1, 5)
+        big = tier != "quick"
+        R = rw.choice([1, 1, 2, 2, 3, 4] + ([5, 6] if big else []))
+        n = rw.randint(1, 8 if big else 5)
         ro = st("ops")
         readers = []
         for r in range(R):
             ops = []
-            for _ in range(ro.randint(1, 8)):
+            for _ in range(ro.randint(1, 14 if big else 8)):
                 if ro.random() < 0.2:
                     ops.append(["dispose"])
                 else:
